@@ -21,7 +21,11 @@ ASSUMPTIONS = ["an exactly-zero result may be real-typed even where numpy would 
                "zero dyads by design)",
                "operand tables are fixed generic numbers (fractional parts of scaled square roots of primes)"]
 
-INITS = ['empty', 'r1', 'r2', 'c1', 'mix', 'blk', 'zero_u', 'zero_v', 'zero_mixed', 'blk_cancel']
+INITS = ['empty', 'r1', 'r2', 'c1', 'mix', 'blk', 'zero_u', 'zero_v', 'zero_mixed', 'blk_cancel', 'sym', 'sym_c', 'tiny',
+         'tiny_big', 'tiny_c']
+# magnitude unit of an initial state: values of order 1e-9 are judged relative to 1e-9 (a matrix of small numbers is a
+# matrix like any other)
+UNIT = {'tiny': 1e-9, 'tiny_c': 1e-9}
 SHAPES = [(3, 2), (2, 2), (2, 3)]
 
 
@@ -45,6 +49,19 @@ def make_init(name, shape, seed):
         U = np.stack([p[0][0], -p[0][0]])
         V = np.stack([p[0][1], p[1][1]])
         return DC(U, V), np.zeros((r, c))
+    if name in ('sym', 'sym_c'):
+        # symmetric construction: v omitted (u (x) u); square shapes only
+        if r != c:
+            return None, None
+        p = rd.dyads('r2' if name == 'sym' else 'mix', r, c, seed)
+        us = [p[0][0].copy(), p[1][0].copy()]
+        return DC(us), rd.dense_of([(u, u) for u in us], r, c)
+    if name in ('tiny', 'tiny_big', 'tiny_c'):
+        # vectors of order 1e-9 (with partners of order 1, or of order 1e9 so that the matrix is of order 1)
+        p = rd.dyads('mix' if name == 'tiny_c' else 'r2', r, c, seed)
+        f = 1e9 if name == 'tiny_big' else 1.0
+        pairs = [(1e-9 * p[0][0], f * p[0][1]), (p[1][0] * (1.0 if name == 'tiny_big' else 1e-9), p[1][1])]
+        return DC([q[0].copy() for q in pairs], [q[1].copy() for q in pairs]), rd.dense_of(pairs, r, c)
     pairs = rd.dyads(name, r, c, seed)
     if not pairs:
         return DC(shape=(r, c)), np.zeros((r, c))
@@ -133,6 +150,7 @@ OPS = {
     'lmul2': lambda D, R, ctx: (2.0 * D, 2.0 * R), 'rmul2': lambda D, R, ctx: (D * 2.0, R * 2.0),
     'lmulj': lambda D, R, ctx: (1j * D, 1j * R), 'rmulj': lambda D, R, ctx: (D * 1j, R * 1j),
     'mul0': lambda D, R, ctx: (D * 0.0, R * 0.0),
+    'lmul_tiny': lambda D, R, ctx: (1e-9 * D, 1e-9 * R), 'rmul_big': lambda D, R, ctx: (D * 1e9, R * 1e9),
     'lmat': lambda D, R, ctx: (lambda M: (M @ D, M @ R))(ctx.matrix(R.shape[0], R.shape[0], 1)),
     'lmatc': lambda D, R, ctx: (lambda M: (M @ D, M @ R))(ctx.matrix(R.shape[0], R.shape[0], 2, True)),
     'lmat_rect': lambda D, R, ctx: (lambda M: (M @ D, M @ R))(ctx.matrix(5 - R.shape[0], R.shape[0], 3)),
@@ -150,6 +168,7 @@ OPS = {
 }
 INPLACE = {'iadd_r', 'iadd_c', 'isub_r', 'isub_c', 'zero_row', 'zero_col', 'zero_rowslice'}
 OPS_QUICK = ['add_r', 'add_c', 'add_0', 'radd_c', 'sub_c', 'rsub_c', 'neg', 'iadd_r', 'isub_c', 'lmul2', 'rmulj', 'mul0',
+             'lmul_tiny', 'rmul_big',
              'lmatc', 'rmat', 'rmat_rect', 'T', 'conj', 'real', 'imag', 'copy', 'sl_rows', 'sl_fancy', 'sl_step',
              'zero_row', 'zero_col']
 
@@ -263,16 +282,16 @@ def to_dense(a):
     return np.asarray(a)
 
 
-def judge(a, b):
-    """None if impl value a conforms to reference b, else a short reason"""
+def judge(a, b, unit=1.0):
+    """None if impl value a conforms to reference b, else a short reason; unit = magnitude floor of the comparison"""
     a_ = to_dense(a)
     b = np.asarray(b)
     if a_.dtype.kind == 'b' or b.dtype.kind == 'b':
         return None if (a_.shape == b.shape and bool(np.all(a_ == b))) else 'value'
     if a_.shape != b.shape:
         return f'shape'
-    scale = max(1.0, float(np.abs(b).max())) if b.size else 1.0
-    if b.size and not np.all(np.abs(a_ - b) <= 1e-9 * scale + 1e-12):
+    scale = max(unit, float(np.abs(b).max())) if b.size else unit
+    if b.size and not np.all(np.abs(a_ - b) <= 1e-9 * scale + 1e-12 * unit):
         return 'value'
     ak, bk = np.iscomplexobj(a_), np.iscomplexobj(b)
     if ak and not bk:
@@ -291,6 +310,9 @@ def carrier_kind(D):
 def run_path(init, shape, seed, path, observe):
     """Replay on fresh objects. Returns (D, R, ncompared, violation|None, admissible)."""
     D, R = make_init(init, tuple(shape), seed)
+    if D is None:
+        return None, None, 0, None, False
+    unit = UNIT.get(init, 1.0)
     ctx = Ctx(seed)
     alive = [(D, snap_carrier(D))]
     ncmp = 0
@@ -306,8 +328,13 @@ def run_path(init, shape, seed, path, observe):
             return D, R, ncmp, {'check': 'op_raised', 'signature': sig,
                                 'detail': {'init': init, 'shape': shape, 'path': path, 'step': k,
                                            'error': str(e)[:300]}}, True
+        # magnitude floor of the comparison: an operand of order 1 raises it to 1 (rounding of the sum is relative to the
+        # larger term), scaling by a constant scales it
+        if name.split('_')[0] in ('add', 'radd', 'sub', 'rsub', 'iadd', 'isub') and not name.endswith('_0'):
+            unit = max(unit, 1.0)
+        unit *= {'lmul_tiny': 1e-9, 'rmul_big': 1e9}.get(name, 1.0)
         ncmp += 1
-        why = judge(D2, R2) if hasattr(D2, 'todense') else 'result_not_a_carrier'
+        why = judge(D2, R2, unit) if hasattr(D2, 'todense') else 'result_not_a_carrier'
         if why is None and tuple(D2.shape) != R2.shape:
             why = 'shape'
         if why:
@@ -361,7 +388,7 @@ def run_path(init, shape, seed, path, observe):
                 elif bool(want) and not bool(got) and (R.size > 0 and np.abs(np.imag(R)).max() > 0):
                     why = 'kind:real_for_complex'
             else:
-                why = judge(got, want)
+                why = judge(got, want, unit)
             if why:
                 sig = {'check': 'obs_result', 'obs': oname, 'carrier': kind_now, 'why': why}
                 found.append({'check': 'obs_result', 'signature': sig,
@@ -392,7 +419,8 @@ def execute(case):
 
     D, R, ncmp, v, adm = run_path(init, shape, seed, prefix, True)
     if not adm:
-        return {'skipped': 'dense counterpart of the prefix raises (shape/index)'}
+        return {'skipped': 'dense counterpart of the prefix raises (shape/index), or the initial state does not exist for '
+                           'this shape'}
     transitions = len(prefix)
     if v:
         addv(v, prefix)
